@@ -87,6 +87,10 @@ pub struct RefVt {
     pub trace_on: bool,
     /// whether the last byte handled by the UTF-8 accumulator was accepted as a continuation
     pub utf8_accepted: bool,
+    /// indices (into `ev`) of OSC events whose string had more than 16 fields: the limit of 16 parameters is
+    /// documented, what the 16th parameter holds when more separators arrive is not (the text of the 16th field, as
+    /// this model reports it, or that text with the later bytes appended)
+    pub osc16: Vec<usize>,
 }
 
 impl Default for RefVt {
@@ -118,6 +122,7 @@ impl RefVt {
             trace: vec![],
             trace_on: false,
             utf8_accepted: false,
+            osc16: vec![],
         }
     }
 
@@ -195,6 +200,9 @@ impl RefVt {
             St::DcsPass => self.emit(Ev::Unhook),
             St::Osc => {
                 let mut f: Vec<Vec<u8>> = self.osc.split(|&c| c == b';').map(|s| s.to_vec()).collect();
+                if f.len() > MAX_OSC_FIELDS {
+                    self.osc16.push(self.ev.len());
+                }
                 f.truncate(MAX_OSC_FIELDS);
                 self.emit(Ev::Osc { params: f, bell });
             }
@@ -406,6 +414,33 @@ impl RefVt {
             },
         }
     }
+}
+
+/// Event lists equal, where for the OSC events listed in `osc16` (indices into `want`) the 16th parameter only has to
+/// begin with the text of the 16th field.
+pub fn events_agree(got: &[Ev], want: &[Ev], osc16: &[usize]) -> bool {
+    if got.len() != want.len() {
+        return false;
+    }
+    got.iter().zip(want).enumerate().all(|(i, (g, w))| {
+        if g == w {
+            return true;
+        }
+        if !osc16.contains(&i) {
+            return false;
+        }
+        match (g, w) {
+            (Ev::Osc { params: gp, bell: gb }, Ev::Osc { params: wp, bell: wb }) => gb == wb && gp.len() == wp.len() && gp.len() == MAX_OSC_FIELDS && gp[..MAX_OSC_FIELDS - 1] == wp[..MAX_OSC_FIELDS - 1] && gp[MAX_OSC_FIELDS - 1].starts_with(&wp[MAX_OSC_FIELDS - 1]),
+            _ => false,
+        }
+    })
+}
+
+/// `parse` together with the indices of the OSC events that overflowed the 16 parameters
+pub fn parse_osc16(bytes: &[u8], policy: Policy) -> (Vec<Ev>, Vec<usize>) {
+    let mut r = RefVt::new(policy);
+    r.feed(bytes);
+    (r.ev, r.osc16)
 }
 
 pub fn parse(bytes: &[u8], policy: Policy) -> Vec<Ev> {
